@@ -103,6 +103,15 @@ def _other_columns(kind_wanted):
         n = max(4, sess.min_rows() + 1)
         newd = sess.d + rnd.choice([1, 2]) if (sess.d == 1 or rnd.random() < 0.6) else sess.d - 1
         dec, rew, ctx = _split(_rows(sess, rnd, n, d=newd), True)
+        if sess.d == 1 and newd == 2 and len(sess.mab.arms) >= 2:
+            # one-feature models: numpy would broadcast the 1x1 matrices against the 2x2 update instead of raising;
+            # the last arm gets a single row with equal components, for which the broadcast matrix is singular, so an
+            # implementation that does not validate the width updates the earlier arms and then raises for this one
+            first, last = sess.mab.arms[0], sess.mab.arms[-1]
+            c = rnd.randint(1, 3)
+            dec = [first, first, last]
+            rew = rew[:3]
+            ctx = [[1, 2], [3, -1], [c, c]]
         # put the arms in an order that maximises the chance that some arms are processed before the failing one
         return ("partial_fit", (dec, rew, ctx))
     return b
@@ -282,6 +291,8 @@ def generate(rnd, tier, index=0):
     cfg, spare = _cfg_for(rnd, *combo)
     ctxl = is_contextual(cfg)
     d = rnd.randint(1, 3)
+    if entry == "partial_fit.other_column_count" and rnd.random() < 0.5:
+        d = 1
     sess_need = 2
     if cfg["np"] and cfg["np"][0] == "KNearest":
         sess_need = cfg["np"][1]["k"]
